@@ -279,11 +279,50 @@ def parse_sections(wd, tag, sections, expansions=None):
     return configs, text
 
 
+def parse_config_file(wd, tag, server_text, environ=None, supervisord_environment=None):
+    """A whole configuration file through the REAL ServerOptions.read_config
+    (process environment -> environ_expansions, [supervisord] environment=,
+    UnhosedConfigParser, server_configs_from_parser).  `environ`: variables put
+    into os.environ for the construction of ServerOptions and the parse (restored
+    afterwards).  `server_text`: the server sections, with {SOCK0}, {SOCK1} ...
+    standing for unix socket paths under wd.  Returns (configs, full text)."""
+    from supervisor.options import ServerOptions
+    for i in range(4):
+        server_text = server_text.replace('{SOCK%d}' % i, os.path.join(wd, '%s%d.sock' % (tag, i)))
+    text = '[supervisord]\nlogfile=%s\npidfile=%s\nchildlogdir=%s\n' % (
+        os.path.join(wd, tag + '-sd.log'), os.path.join(wd, tag + '-sd.pid'), wd)
+    if supervisord_environment:
+        text += 'environment=%s\n' % supervisord_environment
+    text += '\n' + server_text
+    path = os.path.join(wd, tag + '.conf')
+    with open(path, 'w') as f:
+        f.write(text)
+    saved = {}
+    try:
+        for k, v in (environ or {}).items():
+            saved[k] = os.environ.get(k)
+            os.environ[k] = v
+        so = ServerOptions()
+        so.here = wd
+        section = so.read_config(path)
+        configs = section.server_configs
+    finally:
+        for k, v in saved.items():
+            if v is None:
+                os.environ.pop(k, None)
+            else:
+                os.environ[k] = v
+    for c in configs:
+        if c['family'] == socket.AF_INET:
+            c['port'] = 0
+    return configs, text
+
+
 class Testbed(object):
     """One make_http_servers() result with probes attached."""
 
     def __init__(self, wd, username, password, tag='s', via_parser=True, inet_creds=None, sections=None,
-                 expansions=None):
+                 expansions=None, configs=None, config_text=None):
         from supervisor import http as shttp
         from supervisor.medusa import asyncore_25 as asyncore
         from supervisor import rpcinterface
@@ -307,8 +346,10 @@ class Testbed(object):
         self.proc.group = groups['g']
         opts = Options(wd, self.logger)
         self.sockname = os.path.join(wd, tag + '.sock')
-        self.config_text = None
-        if sections is not None:
+        self.config_text = config_text
+        if configs is not None:
+            opts.server_configs = configs
+        elif sections is not None:
             opts.server_configs, self.config_text = parse_sections(wd, tag, sections, expansions)
         elif via_parser:
             opts.server_configs = parse_server_section(wd, username, password, self.sockname, inet_creds)
